@@ -5,6 +5,7 @@ mod c06_kernel;
 mod db;
 mod gen;
 mod judge;
+mod kernels;
 mod pgen;
 mod query;
 mod refeval;
@@ -16,6 +17,9 @@ fn main() {
     let v: Vec<Box<dyn lvharness::suite::Suite>> = vec![
         Box::new(c06_kernel::C06Kernel),
         Box::new(c06_api::C06Api),
+        Box::new(kernels::C03Kernel),
+        Box::new(kernels::C04Kernel),
+        Box::new(kernels::C05Kernel),
         Box::new(api::ApiSuite { name: "c03_filter", gen: suites::gen_c03, salt: 0xC03 }),
         Box::new(api::ApiSuite { name: "c05_order", gen: suites::gen_c05, salt: 0xC05 }),
         Box::new(api::ApiSuite { name: "c04_group", gen: suites::gen_c04, salt: 0xC04 }),
